@@ -63,6 +63,17 @@ def c07run : Handler :=
     (fun (s, ops) o => Pred.C07.runOk s ops o)
     (fun (s, _) => s.wf)
 
+/-- `c07.long  <start> <skip> <ops>  =>  <results of ops>` : `skip` NextSequenceNumber calls whose results
+    are not recorded (up to 2^32 + … of them in the thorough tier: 65536 and more roll-overs), then the
+    program `ops` as in `c07.run`.  The model is the abstract counter of Rtp/Spec/Counter.lean advanced
+    by `skip` in closed form (`c07_long`: that IS the sequential model after `skip` calls), so the kind
+    needs no 2^32-step evaluation on the Lean side. -/
+def c07long : Handler :=
+  mkHandler (do let s ← rdStart; let k ← Rd.nat; let o ← rdOps; pure (s, k, o)) (listTR Rd.nat)
+    (fun (s, k, ops) => Spec.Counter.run (s.state.seq.toNat + k) ops)
+    (fun (s, k, ops) o => o == Spec.Counter.run (s.state.seq.toNat + k) ops)
+    (fun (s, _, _) => s.wf)
+
 def rdCall : Rd Pred.C07.Call := do
   let g ← Rd.nat; let op ← rdOp; let b ← Rd.nat; let a ← Rd.nat; let r ← Rd.nat
   pure { g := g, op := op, before := b, after := a, res := r }
@@ -209,7 +220,7 @@ def c07randstart : Handler := fun inp obs =>
   | _, _ => none
 
 def handlers : List (String × Handler) :=
-  [("c07.run", c07run), ("c07.hist", c07hist), ("c07.facts", c07facts), ("c07.synth", c07hist),
+  [("c07.run", c07run), ("c07.long", c07long), ("c07.hist", c07hist), ("c07.facts", c07facts), ("c07.synth", c07hist),
    ("c07.synthbad", c07histBad), ("c07.synthsmall", c07histSmall), ("c07.race", c07race), ("c07.randstart", c07randstart),
    ("c06.hist", c06hist)]
 end Rtp.Kinds.Pktz
